@@ -11,6 +11,9 @@ import Anko.Model.Cont
 import Anko.Proofs.Cont
 import Anko.Gen.ContFlow
 import Anko.Props.ContFlowTable
+import Anko.Props.Tie.ContFlow
+import Anko.Props.Tie.ProvFlow
+import Anko.Props.Tie.ConvFlow
 
 namespace Anko.C10
 open Anko.Cont
@@ -415,6 +418,17 @@ slice / map / string, slice range, dereference), of getMapIndex / appendSlice / 
 conditions it stands under, is the one written down in Props/ContFlowTable next to Model/Cont: the guard in front of every reflect operation, what
 is copied and what shared, what a failing store leaves behind. Any edit of these functions - also a harmless one - breaks this obligation by name; the check then
 searches model and implementation for a failing input (DESIGN.md 13.3). -/
-theorem container_paths_are_the_modelled_ones : Gen.ContFlow.leaves = Tables.contFlow := by decide +kernel
+theorem container_paths_are_the_modelled_ones : Gen.ContFlow.leaves = Tables.contFlow := Tie.contFlow
+
+/-! ### Shared source ties
+
+The code this property is anchored in is also written down, leaf statement by leaf statement, by the tables below (each decided once in
+Props/Tie, `decide +kernel`, against the table regenerated from /repo on this run). A change of that code breaks the tie by name here too, and the check of
+this property then searches for a failing input - so a change that breaks this property through code whose primary table belongs to another
+property is not overlooked. -/
+/-- unary operators, dereference, address-of, unalias, containerOperand, isNil -/
+theorem source_tie_ProvFlow : Gen.ProvFlow.leaves = Tables.provFlow := Tie.provFlow
+/-- the conversion at the Go boundary (vmConvertToX.go) -/
+theorem source_tie_ConvFlow : Gen.ConvFlow.leaves = Tables.convFlow := Tie.convFlow
 
 end Anko.C10
